@@ -153,3 +153,33 @@ Lemma lexical_guard_examples :
   (exists ss, outline_of_bytes fx_all w_lex = Some ss /\ map s_key ss = [[102%N]; n_x; [103%N]]).
 Proof. vm_compute. repeat split. eexists. split; reflexivity. Qed.
 
+
+(* the full completeness statement still fails: the witness of the open class member_lost *)
+Lemma member_lost_not_covered : full_cover deployed w_member_lost = Some false.
+Proof. vm_compute. reflexivity. Qed.
+
+Lemma full_cover_false : forall fx bs,
+    full_cover fx bs = Some false ->
+    ~ (forall b st, parse_bytes no_gbk classify_tok bs = Ok (PR b [] []) -> analyse (fuel_of_bytes bs) b = Ok st ->
+                    covers (line_lens bs) (entries_of (find_all_symbol fx (finalize st))) (decls_spec (fuel_of_bytes bs) b) = true).
+Proof.
+  intros fx bs E H. unfold full_cover in E.
+  destruct (parse_bytes no_gbk classify_tok bs) as [[b le pe|]| |] eqn:Ep; try discriminate E.
+  destruct le; [|discriminate E]. destruct pe; [|discriminate E].
+  destruct (analyse (fuel_of_bytes bs) b) as [st| |] eqn:Ea; try discriminate E.
+  rewrite (H _ _ eq_refl Ea) in E. discriminate E.
+Qed.
+
+Lemma outline_complete_full_refuted :
+  ~ (forall bs b st,
+        parse_bytes no_gbk classify_tok bs = Ok (PR b [] []) -> analyse (fuel_of_bytes bs) b = Ok st ->
+        covers (line_lens bs) (entries_of (find_all_symbol deployed (finalize st))) (decls_spec (fuel_of_bytes bs) b) = true).
+Proof.
+  intros H. apply (full_cover_false deployed w_member_lost member_lost_not_covered). intros b st. apply H.
+Qed.
+
+(* the outline of a file inside a workspace is the outline of the file alone (fixes/C19-foreign-member.diff): every
+   theorem about `finalize st` / `outline_of_bytes` applies to each file of any workspace *)
+Lemma outline_state_own_file : forall orig merged i st,
+    nth_error orig i = Some st -> outline_state deployed orig merged i = Some (finalize st).
+Proof. intros orig merged i st H. unfold outline_state. cbn [deployed fx_all fx_ownfile]. rewrite H. reflexivity. Qed.
